@@ -362,10 +362,58 @@ class Fn(object):
             return [(i, polarity)]
         out = [(i, polarity)]
         if k == 'DeclRefExpr' and depth < 3 and n.get('ref', '').startswith('v:'):
-            defs = self.defs_of_var(n['ref'])
-            if len(defs) == 1 and defs[0][1] is not None:
-                out += self.cond_facts(defs[0][1], polarity, depth + 1)
+            src = self.flag_source(n['ref'])
+            if src is not None:
+                if polarity or src[1]:
+                    out += self.cond_facts(src[0], polarity, depth + 1)
         return out
+
+    def flag_source(self, ref):
+        """(expr, exact) such that  flag==true  implies  expr==true  (and, when exact, flag==false implies expr==false).
+        Single definition: the defining expression, exact.  Several definitions: the first one, provided every
+        later definition sits only on paths where the flag was already tested true (a re-assignment can then
+        only weaken the flag, so `true` still implies the first expression); not exact."""
+        if not hasattr(self, '_flagsrc'):
+            self._flagsrc = {}
+        if ref in self._flagsrc:
+            return self._flagsrc[ref]
+        self._flagsrc[ref] = None
+        defs = [d for d in self.defs_of_var(ref)]
+        res = None
+        if len(defs) == 1 and defs[0][1] is not None:
+            res = (defs[0][1], True)
+        elif len(defs) > 1 and all(v is not None for (_, v) in defs):
+            decl = [d for d in defs if self.nodes[d[0]]['k'] == 'DeclStmt']
+            if len(decl) == 1:
+                gates = []
+                for B in self.blocks.values():
+                    lc = self.leaf_cond(B)
+                    if lc is None or lc[1]:
+                        continue
+                    for (s2, lab) in self.succ_edges(B.id):
+                        if lab is True and self._plain_true(lc[0], ref):
+                            gates.append((B.id, s2, lab))
+                ok = True
+                for (dnode, v) in defs:
+                    if dnode == decl[0][0]:
+                        continue
+                    p = self.point_of(dnode)
+                    if p is None or p[0] in self.reachable_blocks(cut_edges=gates):
+                        ok = False
+                if ok:
+                    res = (decl[0][1], False)
+        self._flagsrc[ref] = res
+        return res
+
+    def _plain_true(self, cond, ref):
+        """does `cond` being true imply that variable ref is true (ref itself, or a conjunction containing it)"""
+        i = self.strip(cond)
+        n = self.nodes[i]
+        if n['k'] == 'DeclRefExpr':
+            return n.get('ref') == ref
+        if n['k'] == 'BinaryOperator' and n.get('op') == '&&':
+            return self._plain_true(n['ch'][0], ref) or self._plain_true(n['ch'][1], ref)
+        return False
 
     # simple syntactic definitions of a local variable: [(node, value-expr or None)]
     def defs_of_var(self, ref):
